@@ -13,9 +13,10 @@ import z3
 from vt import symx
 from vt.symx import SymInt
 from vt.oblig import Obligation
-from props.c06 import V, mk, sym_env, v_ident, v_reject, v_coerce, VALIDATORS
+from props.c06 import V, mk, sym_env, v_ident, v_reject, v_coerce, VALIDATORS, BadEq
 
 import traits.trait_set_object as tso
+from traits.api import HasTraits, Set, Int
 from traits.trait_errors import TraitError
 
 LEVEL = "model_checking"
@@ -110,14 +111,21 @@ def make_harness(op, s, shape, kinds, vname, factory=plain_factory):
         before = set(ts)
         vars_before = sorted(vars(ts))
         raw = []
+        badeq = False
         if op in OPS1:
             x = mk(ex, "x")
+            if vname == "typed" and ex.flag("x_wrongtype"):
+                x = BadEq(x)
+                badeq = True
             raw = [[x]]
             args = [x]
         elif op in OPS0:
             args = []
         else:
             raw = [[mk(ex, "a%d_%d" % (j, i)) for i in range(n)] for j, n in enumerate(shape)]
+            if vname == "typed" and raw and raw[0] and ex.flag("a0_0_wrongtype"):
+                raw[0][0] = BadEq(raw[0][0])      # the very first argument item: never shadowed by an equal earlier one
+                badeq = True
             args = [build_arg(k, items) for k, items in zip(kinds, raw)]
         flat = [x for grp in raw for x in grp]
         # ---- the operation on the TraitSet ----
@@ -138,6 +146,22 @@ def make_harness(op, s, shape, kinds, vname, factory=plain_factory):
             except EXC as e:
                 exc_r = type(e).__name__
                 ref = set(before)
+        elif vname == "typed":
+            # type-based validity: the wrong-typed item is invalid even when it EQUALS a member.  Operations that add
+            # (add, update, |=) validate every argument item; ^= / symmetric_difference_update validate the items that are
+            # not members (members are removed, not validated); removing operations validate nothing.
+            refine = True
+            setlike = op not in ("ior", "ixor") or kinds[0] in ("set", "frozenset")     # else: TypeError from set itself
+            must_raise = badeq and setlike and (op in ("add", "update", "ior")
+                                                or (op in ("ixor", "symmetric_difference_update") and raw[0][0] not in before))
+            if must_raise:
+                exc_r = "TraitError"
+            else:
+                try:
+                    apply_op(op, ref, args)
+                except EXC as e:
+                    exc_r = type(e).__name__
+                    ref = set(before)
         elif vname == "coerce" and op in ("add", "update") or (op == "ior" and kinds[0] in ("set", "frozenset")):
             refine = True
             try:
@@ -146,10 +170,16 @@ def make_harness(op, s, shape, kinds, vname, factory=plain_factory):
             except EXC as e:
                 exc_r = type(e).__name__
                 ref = set(before)
-        members_valid = all(bool(e >= 0) for e in after) if vname != "ident" else True
+        if vname == "typed":
+            members_valid = all(not isinstance(e, BadEq) for e in after)
+        else:
+            members_valid = all(bool(e >= 0) for e in after) if vname != "ident" else True
         ex.check(members_valid, "every member is valid after the operation")
         ex.check(sorted(vars(ts)) == vars_before, "no hidden state (vars unchanged)")
-        if exc_t == "TraitError":
+        if vname == "typed":
+            ex.check(exc_t == exc_r, "same exception class as set (TraitError exactly when an item that gets validated is invalid)")
+            ex.check(after == ref, "contents equal the built-in set's after the same operation on validated items")
+        elif exc_t == "TraitError":
             if vname == "ident":
                 ex.check(False, "TraitError although every item is valid")
             elif vname == "reject":
@@ -191,10 +221,10 @@ class SortedEval:
         self.items = list(items)
 
     def __sym_eval__(self, model):
-        return sorted(symx.evaluate(self.items, model))
+        return sorted(symx.evaluate([i.x if isinstance(i, BadEq) else i for i in self.items], model))
 
     def __conc__(self):
-        return sorted(int(i) for i in self.items)
+        return sorted(int(i.x if isinstance(i, BadEq) else i) for i in self.items)
 
 
 def conc_sorted(obs):
@@ -253,6 +283,90 @@ def copy_harness(vname, s):
     return harness
 
 
+class SetOwner(HasTraits):
+    """module level: picklable"""
+    s = Set(Int)
+
+
+OWNED_COPIERS = ["copy(set)", "deepcopy(set)", "deepcopy(owner).s", "pickle(owner).s", "clone_traits(owner).s", "copy_traits(owner).s",
+                 "owner2.s = owner.s", "owner2.s = copy(set)", "owner2.s = deepcopy(set)", "owner2.s = pickle(set)"]
+
+
+def owned_copy_harness(s):
+    """copies of a Set trait value taken at any point still validate.  (A TraitSetObject pickled on its own comes back
+    detached by design - trait None - and is re-validated when it is assigned to a trait: that is the route checked.)"""
+    def harness(ex):
+        how = OWNED_COPIERS[ex.choice("copier", len(OWNED_COPIERS))]
+        premut = ex.choice("premut", 3)
+        o = SetOwner(s=set(range(s)))
+        if premut == 1:
+            o.s.add(10)
+        elif premut == 2 and s:
+            o.s.remove(0)
+        exc = None
+        cp = None
+        try:
+            if how == "copy(set)":
+                cp = copy.copy(o.s)
+            elif how == "deepcopy(set)":
+                cp = copy.deepcopy(o.s)
+            elif how == "deepcopy(owner).s":
+                cp = copy.deepcopy(o).s
+            elif how == "pickle(owner).s":
+                cp = pickle.loads(pickle.dumps(o)).s
+            elif how == "clone_traits(owner).s":
+                cp = o.clone_traits().s
+            elif how == "copy_traits(owner).s":
+                o2 = SetOwner()
+                o2.copy_traits(o)
+                cp = o2.s
+            else:
+                src = {"owner2.s = owner.s": lambda: o.s, "owner2.s = copy(set)": lambda: copy.copy(o.s),
+                       "owner2.s = deepcopy(set)": lambda: copy.deepcopy(o.s),
+                       "owner2.s = pickle(set)": lambda: pickle.loads(pickle.dumps(o.s))}[how]()
+                smuggle = ex.flag("smuggled_invalid_member")
+                if smuggle:
+                    set.add(src, "bad") if src is not o.s else None     # through the base class: no validation on the way in
+                o2 = SetOwner()
+                if smuggle and src is not o.s:
+                    try:
+                        o2.s = src
+                        took = True
+                    except TraitError:
+                        took = False
+                    ex.check(not took and "bad" not in o2.s, "assigning a set object that holds an invalid member is rejected")
+                    return {"how": how, "smuggled": True}
+                o2.s = src
+                cp = o2.s
+        except Exception as e:
+            exc = type(e).__name__
+        ex.check(exc is None, "copy operation succeeds")
+        if cp is not None:
+            ex.check(isinstance(cp, tso.TraitSet), "the copy is a TraitSet")
+            ex.check(set(cp) == set(o.s), "copy is equal")
+            ex.check(cp is not o.s, "copy is a distinct object")
+            for label, bad in (("add", lambda c: c.add("x")), ("update", lambda c: c.update([5, "y"])),
+                               ("|=", lambda c: c.__ior__({2.5})), ("^=", lambda c: c.__ixor__({1000, None}))):
+                before = set(cp)
+                try:
+                    bad(cp)
+                    rejected = False
+                except TraitError:
+                    rejected = True
+                ex.check(rejected and set(cp) == before, "the copy still validates: an invalid item is rejected and nothing changes")
+            cp.add(50)
+            ex.check(50 not in o.s, "mutating the copy leaves the original alone")
+            try:
+                o.s.add("z")
+                orig_ok = False
+            except TraitError:
+                orig_ok = True
+            ex.check(orig_ok, "the original keeps validating")
+        return {"exc": exc, "how": how}
+
+    return harness
+
+
 def obligations(tier, build):
     obs = []
     S = 2 if tier == "quick" else 3
@@ -290,6 +404,47 @@ def obligations(tier, build):
                                               bounds={"stored elements s": s, "operand size": shape[0], "operand kind": kind,
                                                       "elements": "unbounded Int", "validator": vname},
                                               leverage="membership / overlap of symbolic elements", **common))
+    # ---- type-based validity (an invalid item may EQUAL a member), and everything again on an owner-backed TraitSetObject
+    import props._owners as owners
+    fac = owners.set_factory()
+    SO = 2 if tier == "quick" else 3
+    variants = [("typed", None, "typed")] + [("owned-" + v, fac, v) for v in ("ident", "reject", "coerce", "typed")]
+    for label, factory, vname in variants:
+        kw = {} if factory is None else {"factory": factory}
+        cont = "bare TraitSet" if factory is None else "TraitSetObject owned by a HasTraits object; 1 legacy + 2 observe handlers"
+        for s in range(SO + 1):
+            for op in OPS1 + (OPS0 if vname == "ident" else []):
+                obs.append(Obligation("%s/%s/s=%d" % (label, op, s), make_harness(op, s, (), (), vname, **kw),
+                                      bounds={"stored elements s": s, "elements": "unbounded Int", "validator": vname, "container": cont},
+                                      leverage="membership / overlap of symbolic elements", **common))
+            for op in OPSN:
+                for shape in ([(1,), (2,)] if tier == "quick" else [(1,), (2,), (1, 1), (2, 1)]):
+                    obs.append(Obligation("%s/%s/s=%d/%s" % (label, op, s, "+".join(map(str, shape))),
+                                          make_harness(op, s, shape, ("list",) * len(shape), vname, **kw),
+                                          bounds={"stored elements s": s, "argument iterables (sizes)": list(shape),
+                                                  "validator": vname, "container": cont},
+                                          leverage="membership / overlap of symbolic elements", **common))
+            for op in OPSI + OPSS:
+                for shape in ([(1,), (2,)] if tier == "quick" else [(1,), (2,), (3,)]):
+                    for kind in (("set", "list") if op in OPSI else ("list", "set")):
+                        if tier == "quick" and kind == "list" and shape != (1,):
+                            continue
+                        obs.append(Obligation("%s/%s/s=%d/%d/%s" % (label, op, s, shape[0], kind),
+                                              make_harness(op, s, shape, (kind,), vname, **kw),
+                                              bounds={"stored elements s": s, "operand size": shape[0], "operand kind": kind,
+                                                      "validator": vname, "container": cont},
+                                              leverage="membership / overlap of symbolic elements", **common))
+    falsy = owners.set_factory(falsy=True)
+    for op in ("add", "update", "ior"):
+        for s in (0, 1):
+            obs.append(Obligation("owned-falsy/%s/s=%d/reject" % (op, s),
+                                  make_harness(op, s, (1,), ("set",), "reject", factory=falsy),
+                                  bounds={"stored elements s": s, "owner": "falsy (defines __bool__ / __len__)"},
+                                  leverage="validity of symbolic elements", **common))
+    for s in (0, 2):
+        obs.append(Obligation("owned-copy/s=%d" % s, owned_copy_harness(s),
+                              bounds={"stored elements": s, "copiers": OWNED_COPIERS, "history before the copy": "none/add/remove"},
+                              leverage="choice feasibility only (copy/pickle are C boundaries, elements concrete)", stubs=[]))
     for vname in ("ident", "reject", "coerce"):
         for s in (0, 2):
             obs.append(Obligation("copy/s=%d/%s" % (s, vname), copy_harness(vname, s),
